@@ -143,6 +143,11 @@ def jd_month_tables(ctx, ym):
         y, m = x
         first = 15 if (y, m) == (1582, 10) else 1
         out = [py(t2.m(I2.call('JulianDay::from_ymd_hms', [y, m, 1, 0, 0, 0]), 'get_day'))]
+        # the date's and the instant's own accessors must give the same number (they are the route every caller takes)
+        via_day = py(t2.m(t2.m(I2.call('SolarDay::from_ymd', [y, m, 1]), 'get_julian_day'), 'get_day'))
+        via_time = py(t2.m(t2.m(I2.call('SolarTime::from_ymd_hms', [y, m, 1, 0, 0, 0]), 'get_julian_day'), 'get_day'))
+        if via_day != out[0] or via_time != out[0]:
+            return 'SolarDay::get_julian_day %s / SolarTime::get_julian_day %s / JulianDay::from_ymd_hms %s disagree' % (via_day, via_time, out[0])
         if (y, m) == (1582, 10):
             out.append(py(t2.m(I2.call('JulianDay::from_ymd_hms', [y, m, 15, 0, 0, 0]), 'get_day')))
         return out
@@ -233,7 +238,8 @@ def run(ctx):
     # ---- routing: next / subtract / index-in-year with the JD layer replaced by the oracle
     cm = CalModel(I, {}, [])
     base = [(1, 1, 1), (4, 2, 28), (4, 2, 29), (100, 2, 29), (1582, 10, 4), (1582, 10, 15), (1582, 10, 31), (1582, 12, 31), (1583, 1, 1), (1600, 2, 29),
-            (1700, 2, 28), (1900, 3, 1), (2000, 2, 29), (2023, 12, 31), (2024, 1, 31), (9999, 12, 1)]
+            (1700, 2, 28), (1900, 3, 1), (2000, 2, 29), (2023, 12, 31), (2024, 1, 31), (9999, 12, 1),
+            (1, 1, 5), (100, 12, 31), (1500, 2, 28), (1500, 3, 1), (1500, 12, 31), (1501, 1, 1)]     # incl. century years that are leap only in the Julian calendar
     steps = [-400, -366, -365, -31, -30, -11, -10, -1, 0, 1, 10, 11, 28, 29, 30, 31, 365, 366, 400]
 
     def nxt(x):
@@ -259,8 +265,8 @@ def run(ctx):
                 if CAL.exists(y, m, d):
                     out.append((y, m, d))
         return out
-    table(ctx, 'ROUTE', 'SolarDay::get_index_in_year', doy_dom(1582) + doy_dom(2024) + doy_dom(1900), lambda x: py(t.m(cm.solar_day(*x), 'get_index_in_year')), lambda x: CAL.jdn(*x) - CAL.jdn(x[0], 1, 1),
-          'day-of-year = days since January 1 (every day of 1582, 1900, 2024)', str, fn_site(p, 'SolarDay::get_index_in_year'))
+    table(ctx, 'ROUTE', 'SolarDay::get_index_in_year', doy_dom(1582) + doy_dom(2024) + doy_dom(1900) + doy_dom(1500) + doy_dom(100) + doy_dom(4), lambda x: py(t.m(cm.solar_day(*x), 'get_index_in_year')), lambda x: CAL.jdn(*x) - CAL.jdn(x[0], 1, 1),
+          'day-of-year = days since January 1 (every day of 4, 100, 1500 [leap only in the Julian calendar], 1582, 1900, 2024)', str, fn_site(p, 'SolarDay::get_index_in_year'))
 
     # month lengths as the user meets them: the listed days of a month are exactly the dates that exist in it (its length is their number)
     def mlist(x):
